@@ -15,8 +15,8 @@ fn run_twin<H: HK>(hist: &History, ctx: &Ctx) -> Result<CaseInfo, Violation> {
         proofs: 12,
         ..Default::default()
     };
-    let mut a = Runner::<H>::new(hist, &obs, &ctx.scratch, 2 << 20)?;
-    let mut b = Runner::<H>::new(hist, &obs, &ctx.scratch, 2 << 20)?;
+    let mut a = Runner::<H>::new(hist, &obs, &ctx.scratch, 24 << 20)?;
+    let mut b = Runner::<H>::new(hist, &obs, &ctx.scratch, 24 << 20)?;
     a.clamp_rollback = true;
     b.clamp_rollback = true;
     let mut steps: Vec<Step> = hist.steps.clone();
@@ -108,7 +108,7 @@ impl Check for C10 {
         history_strategy(HistParams {
             max_steps: tier.pick(10, 24),
             max_entries: tier.pick(20, 60),
-            bulk_n: tier.pick(300, 2000),
+            bulk_n: tier.pick(6000, 8000),
             big_values: true,
             rollback: 1,
             rollback_weight: 12,
